@@ -38,6 +38,8 @@ func main() {
 	ri := fs.Int("replay-index", 0, "")
 	verbose := fs.Bool("v", false, "")
 	cpuprof := fs.String("cpuprofile", "", "")
+	onlyKinds := fs.String("only-kinds", "", "")
+	skipKinds := fs.String("skip-kinds", "", "")
 	fs.Parse(os.Args[2:])
 	fn, ok := monitors[id]
 	if !ok {
@@ -50,6 +52,7 @@ func main() {
 		os.Exit(2)
 	}
 	c.Verbose = *verbose
+	c.OnlyKinds, c.SkipKinds = *onlyKinds, *skipKinds
 	if *rk != "" {
 		c.Replaying = true
 		c.ReplayKind = *rk
